@@ -11,6 +11,7 @@ import (
 	"strings"
 	"testing"
 
+	"github.com/theory/sqljson/path"
 	"github.com/theory/sqljson/path/exec"
 	"pgregory.net/rapid"
 )
@@ -410,6 +411,100 @@ var checkStrPred = register("c12.strpred", func(c StrPredCase) *Violation {
 	return nil
 })
 
+// RegexPairCase: two like_regex predicates over the same subject - in one path (joined by && / || or as two
+// consecutive filters), and in two paths parsed one after the other in the same process.
+type RegexPairCase struct {
+	Subject string `json:"subject"`
+	P1      string `json:"p1"`
+	F1      string `json:"f1,omitempty"`
+	P2      string `json:"p2"`
+	F2      string `json:"f2,omitempty"`
+}
+
+// goRegexMatch: the documented translation (i, s, m as in Go; q = literal substring).
+func goRegexMatch(pat, flags, subject string) bool {
+	if strings.Contains(flags, "q") {
+		if strings.Contains(flags, "i") {
+			return regexp.MustCompile("(?i)" + regexp.QuoteMeta(pat)).MatchString(subject)
+		}
+		return strings.Contains(subject, pat)
+	}
+	return regexp.MustCompile(goRegexSource(pat, flags)).MatchString(subject)
+}
+
+var checkRegexPair = register("c12.regexpair", func(c RegexPairCase) *Violation {
+	pred := func(pat, fl string) string {
+		t := "@ like_regex " + QuoteJP(pat)
+		if fl != "" {
+			t += " flag " + QuoteJP(fl)
+		}
+		return t
+	}
+	a1, a2 := pred(c.P1, c.F1), pred(c.P2, c.F2)
+	single := func(a string) string { return "$a ? (" + a + ")" }
+	p1, err1, pan1 := ParseSafe(single(a1))
+	p2, err2, pan2 := ParseSafe(single(a2))
+	if pan1 != "" || pan2 != "" {
+		return violf("Parse panicked: %s%s", pan1, pan2)
+	}
+	if err1 != nil || err2 != nil {
+		return nil // a pattern rejected at parse time: C04's business
+	}
+	w1, w2 := goRegexMatch(c.P1, c.F1, c.Subject), goRegexMatch(c.P2, c.F2, c.Subject)
+	vars := exec.Vars{"a": c.Subject}
+	kept := func(p *path.Path) (bool, *Violation) {
+		got := RunQuery(context.Background(), p, nil, exec.WithVars(vars))
+		if got.Panic != "" || got.Class != EOK || len(got.Items) > 1 {
+			return false, violf("%s with a=%q: Query returned %s%s", p.String(), c.Subject, got, got.Panic)
+		}
+		return len(got.Items) == 1, nil
+	}
+	// each path alone, the first one again after the second was parsed and run, and freshly parsed copies in the other order
+	q2, _, _ := ParseSafe(single(a2))
+	q1, _, _ := ParseSafe(single(a1))
+	for _, st := range []struct {
+		p    *path.Path
+		want bool
+		what string
+	}{{p1, w1, "first"}, {p2, w2, "second"}, {p1, w1, "first, again after the second"}, {q2, w2, "second, parsed again"}, {q1, w1, "first, parsed again after the second"}, {p2, w2, "second, again"}} {
+		g, v := kept(st.p)
+		if v != nil {
+			return v
+		}
+		if g != st.want {
+			return violf("%s with a=%q (%s path of the pair %q / %q): like_regex must be %v as Go's regexp matches under the translated flags, the filter kept the item: %v", st.p.String(), c.Subject, st.what, a1, a2, st.want, g)
+		}
+	}
+	// both in one path
+	for _, f := range []struct {
+		text string
+		want bool
+	}{
+		{"$a ? ((" + a1 + ") && (" + a2 + "))", w1 && w2},
+		{"$a ? ((" + a2 + ") && (" + a1 + "))", w1 && w2},
+		{"$a ? ((" + a1 + ") || (" + a2 + "))", w1 || w2},
+		{"$a ? ((" + a2 + ") || (" + a1 + "))", w1 || w2},
+		{"$a ? (" + a1 + ") ? (" + a2 + ")", w1 && w2},
+		{"$a ? (" + a2 + ") ? (" + a1 + ")", w1 && w2},
+		{"$a ? (!(" + a1 + ") && (" + a2 + "))", !w1 && w2},
+		{"$a ? ((" + a1 + ") && !(" + a2 + "))", w1 && !w2},
+		{"strict $a ? (exists(@ ? (" + a1 + ")) || (" + a2 + "))", w1 || w2},
+	} {
+		p, err, pan := ParseSafe(f.text)
+		if err != nil || pan != "" {
+			return violf("harness: %q does not parse: %v%s", f.text, err, pan)
+		}
+		g, v := kept(p)
+		if v != nil {
+			return v
+		}
+		if g != f.want {
+			return violf("%s with a=%q: alone the predicates are %v and %v (Go's regexp under the translated flags), so the item must be kept: %v, but it was kept: %v", f.text, c.Subject, w1, w2, f.want, g)
+		}
+	}
+	return nil
+})
+
 func TestC12(t *testing.T) {
 	ev := newEv(t, "C12")
 	ev.replayTier(t)
@@ -544,6 +639,45 @@ func TestC12(t *testing.T) {
 			}
 		}
 		ev.Exhaustive("string_predicate_table", int64(i))
+	})
+	t.Run("regex_pairs", func(t *testing.T) {
+		// the same pattern text under two flag sets, and patterns that differ only in the case of a letter or of an
+		// escape class, in one path and in two paths of one process (whatever is remembered about a compiled
+		// pattern must be keyed by everything that decides what it matches)
+		b := ev.enum(t)
+		pats := []string{"a.c", "A.C", "a\\.c", "\\d", "\\D", "\\w", "\\W", "\\s", "\\S", "\\bab", "\\Bab", "^a", "^A", "a$", "a|b*", "[", "(", "\\pL", "\\PL", "[a-c]", "[A-C]", "[^a-c]", "x.*y", "^b", "a.b"}
+		subs := []string{"abc", "a.c", "ABC", "A.C", "a\nc", "xab", "ab", "1", " ", "b\na", "[", "(", "a|b*", "x\ny", "_"}
+		fls := []string{"", "i", "q", "iq", "s", "m", "qs", "is"}
+		i := 0
+		for pi, p1 := range pats {
+			for pj, p2 := range pats {
+				samePair := pi == pj || strings.EqualFold(p1, p2)
+				for _, f1 := range fls {
+					for _, f2 := range fls {
+						if !samePair && !(f1 == f2 && (pi+pj)%5 == 0) {
+							continue
+						}
+						if pi == pj && f1 == f2 {
+							continue
+						}
+						for _, sub := range subs {
+							i++
+							if !mine(i) {
+								continue
+							}
+							c := RegexPairCase{Subject: sub, P1: p1, F1: f1, P2: p2, F2: f2}
+							key, _ := json.Marshal(c)
+							ev.Eval(string(key), true)
+							ev.Sample("regexpair", c)
+							if !b.Check("c12.regexpair", c, checkRegexPair(c)) {
+								return
+							}
+						}
+					}
+				}
+			}
+		}
+		ev.Exhaustive("regex_pairs_same_text_or_case_variants_by_flag_sets_by_subjects", int64(i))
 	})
 	t.Run("many_distinct_patterns", func(t *testing.T) {
 		// like_regex stays right however many different patterns this process has evaluated before
